@@ -1,6 +1,6 @@
 (** Entry points of the C17 model (glue: table decoding / encoding). *)
 From Coq Require Import List Ascii String ZArith Bool.
-From Shexer Require Import Lib.PyStr Lib.Dict Gen.Consts Spec.Rdf Model.Table Model.Tracker Model.MinIri Model.Examples.
+From Shexer Require Import Lib.PyStr Lib.Dict Gen.Consts Spec.Rdf Spec.MinIriSpec Model.Table Model.Tracker Model.MinIri Model.Examples.
 Import ListNotations.
 
 Definition ooptstr (o : option (option str)) : str :=
@@ -9,8 +9,9 @@ Definition ooptstr (o : option (option str)) : str :=
 (** function level *)
 Definition c17_lcp_row (r : list str) : list str := [lcp (fld r 0) (fld r 1)].
 Definition c17_det_row (r : list str) : list str := [optstr (determine (fld r 0))].
-(** a row is the list of instance ids of one class, in order *)
-Definition c17_stem_row (r : list str) : list str := [fold_min_iri r; optstr (stem r)].
+(** a row is the list of instance ids of one class, in order; the last field
+    is the computable domain test of the theorems ([Spec.MinIriSpec.C17_domb]) *)
+Definition c17_stem_row (r : list str) : list str := [fold_min_iri r; optstr (stem r); bstr (C17_domb r)].
 
 (** graph level.  Row 0: [detect_minimal_iri; examples_mode (N / S...); inverse_paths].
     Other rows: one triple each: [subject kind I|B; subject id; predicate;
@@ -39,7 +40,8 @@ Definition c17_graph (t : table) : table :=
         flat_map (fun c =>
           [Str "shape"; c;
            (if dmi then ooptstr (shape_stem d c) else Str "-");
-           optstr (shape_example d c)] ::
+           optstr (shape_example d c);
+           bstr (C17_domb (instances_of ins c))] ::
           match dget d c with
           | None => []
           | Some e =>
